@@ -1084,7 +1084,7 @@ def _check_mean_field_system_list(system_list):
         assert isinstance(obj, TimeDependentSystemWithField), "Each "\
                 "element of system_list must be a "\
                 "TimeDependentSystemWithField object."
-    return system_list
+    return list(system_list)
 
 def _check_parameterized_gammas_lindblad_operators(
         gammas,
